@@ -1477,7 +1477,9 @@ class Emitter:
                 if self.pre:
                     raise Abort('global initialiser needs statements: ' + decl['name'])
                 self.pre, self.stmt_calls_may_throw, self.cur_lambda = save
-                text = 'static const %s = %s;' % (text, v)
+                # emitted as a macro: CBMC initialises static objects in an order of its own, so a constant that
+                # is defined in terms of another constant would read 0
+                text = '#define %s ((%s)(%s))' % (cn, self.ctype(t), v)
             else:
                 text = text + ';'
             self.globals[key] = (cn, text)
